@@ -582,11 +582,10 @@ fn shrink(h: &History, fail_at: Option<u64>, sig: &Value) -> History {
 }
 
 fn report(ctx: &mut CaseCtx, h: &History, alloc: &str, fail_at: Option<u64>, sig: Value, what: String) {
-    let hmin = if alloc == "fault" { shrink(h, fail_at, &sig) } else { h.clone() };
     ctx.violation(
         sig,
         format!("hash map ({alloc} allocator, init_cap {}): {what}", h.init_cap),
-        json!({"history": hmin, "alloc": alloc, "fail_at": fail_at}),
+        json!({"history": h, "alloc": alloc, "fail_at": fail_at}),
     );
 }
 
@@ -711,6 +710,17 @@ impl Check for C12 {
         if let Some((sig, what)) = r {
             ctx.violation(sig, what, replay.clone());
         }
+    }
+    fn minimise(&self, replay: &Value, sig: &Value) -> Value {
+        let Some(h) = replay.get("history").and_then(|h| serde_json::from_value::<History>(h.clone()).ok()) else {
+            return replay.clone();
+        };
+        let alloc = replay.get("alloc").and_then(|a| a.as_str()).unwrap_or("fault").to_string();
+        let fail_at = replay.get("fail_at").and_then(|a| a.as_u64());
+        let on_stub = first_fail_fault(&h, fail_at).map(|(s, _)| &s == sig).unwrap_or(false);
+        let hm = if on_stub { shrink(&h, fail_at, sig) } else { h.clone() };
+        let alloc = if on_stub { "fault".to_string() } else { alloc };
+        json!({"history": hm, "alloc": alloc, "fail_at": fail_at})
     }
     fn assumptions(&self) -> Vec<String> {
         vec![
